@@ -158,6 +158,15 @@ func runPrintCase(o *Oracle, d json.RawMessage, oc *Outcome) {
 				}
 			}
 			if len(ls) > 0 {
+				if c.NilW || len(c.CostLits)%2 == 0 {
+					// the objective replaces an earlier one (set by a parser or by the caller): only the last counts
+					pre := make([]int, len(ls))
+					for i := range pre {
+						pre[i] = 2 + (i*3+len(ls))%5
+					}
+					pb.SetCostFunc(append([]solver.Lit{}, ls...), pre)
+					oc.Tag("objective-replaced")
+				}
 				if c.CostW != nil {
 					pb.SetCostFunc(ls, append([]int{}, coefs...))
 				} else {
